@@ -167,7 +167,10 @@ pub fn check(prop: &str, tier: &str) -> i32 {
                 "push_slice: the last short word equals the big-endian number of the remaining bytes (unused high-order bytes zero), as the shipped unit test pins".into(),
             ];
             rep.run_engine(&AdtSim { focus: prop.into() }, scale(tier, 400_000, 20_000_000), &findings);
-            if prop == "C13" {
+            // (skipped when the meter already failed its own model: a meter that accepts every
+            // charge lets generated programs allocate without bound, which aborts the process
+            // instead of reporting)
+            if prop == "C13" && rep.violations_reported == 0 {
                 // frame accounting by real code: whole transactions with out-of-gas points (F2),
                 // database faults (F1) and inspector short-circuits (F3); the monitor checks at
                 // every instruction that remaining <= limit, that remaining never grows inside a
